@@ -25,6 +25,14 @@ VarintCase(len, pt) ==     \* a number of exactly `len` varint bytes: its top bi
   LET nb == IF len = 10 THEN 64 ELSE 7 * len
       b == [j \in 1..nb |-> IF j = nb \/ (len = 10 /\ j = 64) THEN 1 ELSE PatBit(pt, 3, j - 1, nb)]
   IN [kind |-> "varint", len |-> len, pat |-> pt, bits |-> b, bytes |-> VarintBits(b)]
+(* definition levels of a page without nulls, as the writer stores them in version-1 pages: 4-byte length, ONE RLE run  *)
+(* header varint(count << 1), the level value 1.  The reader's fast path (core.skip_definition_bytes) steps over the      *)
+(* block knowing only the count.  `len` = bytes of the header varint; the count is given as bits (up to 2^31 - 1).       *)
+LevelBlockCase(len, pt) ==
+  LET nb == IF len = 5 THEN 32 ELSE 7 * len
+      hb == [j \in 1..nb |-> IF j = 1 THEN 0 ELSE IF j = nb THEN 1 ELSE PatBit(pt, 5, j - 1, nb)]     \* count << 1
+  IN [kind |-> "levelblock", len |-> len, pat |-> pt, countbits |-> Tail(hb),
+      bytes |-> <<len + 1, 0, 0, 0>> \o VarintBits(hb) \o <<1>>]
 BoolCase(nn, pt) == [kind |-> "bool", n |-> nn, pat |-> pt, bits |-> [i \in 1..nn |-> PatBit(pt, i, 0, 1)],
                      bytes |-> BoolPack([i \in 1..nn |-> PatBit(pt, i, 0, 1)])]
 
@@ -46,6 +54,7 @@ VectorsQuick ==
   \cup {RleCase(ww, pt, c) : ww \in {1, 3, 8, 9, 16, 17, 24, 25, 32}, pt \in {"ones", "mix"}, c \in {1, 7, 8, 9, 300}}
   \cup {HybridCase(ww, pt, c1, g2, c3) : ww \in {1, 5, 8, 12, 24}, pt \in {"mix", "alt"}, c1 \in {1, 9}, g2 \in {1, 2}, c3 \in {0, 8}}
   \cup {VarintCase(len, pt) : len \in 1..10, pt \in {"zeros", "ones", "mix"}}
+  \cup {LevelBlockCase(len, pt) : len \in 1..5, pt \in {"zeros", "ones", "mix"}}
   \cup {BoolCase(nn, pt) : nn \in Counts, pt \in {"ones", "alt", "mix"}}
   \cup {DeltaCase(ww, pt, used, first, md) : ww \in {0, 1, 7, 8, 9, 16, 24, 28, 29, 31, 32, 33, 56}, pt \in {"ones", "mix"},
                                             used \in {1, 3}, first \in {7}, md \in {-3, 5}}
@@ -54,6 +63,7 @@ VectorsThorough ==
   \cup {RleCase(ww, pt, c) : ww \in 1..32, pt \in {"ones", "mix", "top"}, c \in {1, 7, 8, 9, 127, 128, 300}}
   \cup {HybridCase(ww, pt, c1, g2, c3) : ww \in 1..24, pt \in {"mix", "alt"}, c1 \in {1, 8, 9}, g2 \in {1, 2, 3}, c3 \in {0, 1, 8}}
   \cup {VarintCase(len, pt) : len \in 1..10, pt \in PatsAll}
+  \cup {LevelBlockCase(len, pt) : len \in 1..5, pt \in PatsAll}
   \cup {BoolCase(nn, pt) : nn \in 0..20, pt \in {"ones", "alt", "mix", "zeros"}}
   \cup {DeltaCase(ww, pt, used, first, md) : ww \in 0..56, pt \in {"ones", "mix", "alt", "top"},
                                             used \in 1..4, first \in {0, 7, -2}, md \in {0, -3, 5}}
